@@ -349,6 +349,12 @@ func genSignedStructs(g *G, count int) {
 		if forced {
 			id, tr, forge = g.newIdentity(7, 4, false, nil), g.newSigner(7), forcedForge
 		}
+		// … and one genuine offline block of every transient type whose signature length differs from the Ed25519
+		// destination's (DSA = type 0: 40 bytes, P-384: 96) or equals it (P-256, RedDSA)
+		if i >= 8 && i < 12 {
+			g.valid = true
+			id, tr, forge = g.newIdentity(7, 4, false, nil), g.newSigner([]int{0, 2, 1, 11}[i-8]), ""
+		}
 		body, sg := g.encLS2Body(id, tr, forge)
 		for _, c := range g.adversary([]byte{3}, body, sg, id.sg) {
 			g.gen = "ls2-" + c.tag + "-off:" + offTag(tr, forge)
